@@ -125,12 +125,15 @@ func (vals *ValidatorSet) IncrementProposerPriority(times int32) {
 	// re-normalizing priorities, i.e., rescale all priorities by multiplying with:
 	//  2*totalVotingPower/(maxPriority - minPriority)
 	diffMax := PriorityWindowSizeFactor * vals.TotalVotingPower()
-	vals.RescalePriorities(diffMax)
-	vals.shiftByAvgProposerPriority()
 
 	var proposer *Validator
-	// Call IncrementProposerPriority(1) times times.
+	// Call IncrementProposerPriority(1) times times: every step rescales and centres
+	// before it rotates, so that advancing by a+b is advancing by a and then by b (a
+	// node that skips rounds must arrive at the proposer of a node that walked them,
+	// and the set of a later height is reached one height at a time).
 	for i := int32(0); i < times; i++ {
+		vals.RescalePriorities(diffMax)
+		vals.shiftByAvgProposerPriority()
 		proposer = vals.incrementProposerPriority()
 	}
 
